@@ -91,6 +91,8 @@ def linksym(run, vm):
     linksym_fn(run, 'LINKSYM', vm.handlers['delete_'], None, 'DELETE', cursor=cur)
     linksym_fn(run, 'LINKSYM', vm.handlers['put_copy'], None, 'PUT_COPY', cursor=cur)
     linksym_fn(run, 'LINKSYM', fx.one('graphite2::Segment::reverseSlots'), 'seg', 'reverseSlots', rules=('R1', 'R2', 'R3', 'R4', 'R5', 'R6', 'R8', 'R9'), max_visits=6)
+    from .c04 import put_copy_links
+    put_copy_links(run, vm, 'LINKSYM')        # identity of the overwritten live slot (links, deleted/copied flags) is put back on every path
     # TEMP_COPY: the copy is off-stream (lives only in the slot map, marked copied); no stream slot may point to it
     tc = vm.handlers['temp_copy']
     ls = LinkSym(tc, None)
@@ -329,6 +331,8 @@ def run(run):
     mutators(run, fx)
     c02.growth(run, vm)
     index(run, fx)
+    from . import width
+    width.no_narrow(run, fx, 'INDEX', ['graphite2::Slot::m_index', 'graphite2::Segment::m_numGlyphs'])
     nomutpos(run, vm)
     gidclamp(run, fx)
     run.assume('pre-state of each mutator is a well-formed stream (the rules are the preservation step of an induction; the base case is '
